@@ -1,3 +1,5 @@
 import RattrDriver.JsonUtil
 import RattrDriver.C04
 import RattrDriver.C03
+import RattrDriver.AstJson
+import RattrDriver.Visit
